@@ -232,19 +232,19 @@ class DataPath:
 
     def to_part_specs(self):
         parts = []
-        for i in self.parts:
+        for part, simple in zip(self.parts, self.simplify()):
+            # a primitive only if the constructor rebuilds exactly this part from it:
             try:
-                part_spec = i.condition.callable.kwargs["value"]
-            except KeyError:
-                if isinstance(i, MapOrListValue):
-                    part_spec = i.list_condition.callable.kwargs["value"]
-                elif i.CONTAINER_TYPE is Container.MAP:
-                    part_spec = {"type": "map_value"}
-                elif i.CONTAINER_TYPE is Container.LIST:
-                    part_spec = {"type": "list_value"}
-                else:
-                    raise RuntimeError(f"Cannot convert part to a part spec: {i!r}.")
-            parts.append(part_spec)
+                is_primitive = (
+                    not isinstance(simple, ContainerValue)
+                    and DataPath(simple).parts[0] == part
+                )
+            except TypeError:
+                is_primitive = False
+            parts.append(simple if is_primitive else part.to_spec())
+        if parts and not self.is_concrete and not any(isinstance(i, dict) for i in parts):
+            # keep the path non-concrete (it was built with a container-value part):
+            parts[0] = self.parts[0].to_spec()
         return parts
 
     @classmethod
@@ -519,6 +519,23 @@ class ContainerValue:
         ):
             return True
         return False
+
+    def to_spec(self):
+        """Get the mapping form that `from_spec` understands."""
+        spec = {
+            "type": {
+                MapValue: "map_value",
+                ListValue: "list_value",
+                MapOrListValue: "map_or_list_value",
+            }[type(self)]
+        }
+        for cond_name in ("condition", "list_condition", "map_condition"):
+            cond = getattr(self, cond_name, None)
+            if cond is not None and not cond.is_null:
+                spec[cond_name] = cond.to_json_like()
+        if self.label is not None:
+            spec["label"] = self.label
+        return spec
 
     @staticmethod
     def from_spec(spec):
